@@ -102,6 +102,65 @@ fn c04_port_r1_absent_then_present() {
 	kani::cover!(true, "reached");
 }
 
+// @verif property=C08,C04:thorough tier=quick mem=16 timeout=3000
+// @encodes peppi::io::slippi::de::parse_event: an unknown event (declared in the payload table) between the Frame Pre events of the two climbers of a pre-3.0 replay is a no-op - it neither closes nor opens a frame
+// @symbolic 1350 Pre/Post payload bytes of 4 events, the unknown events' payloads
+// @bound version 0.1.0 (frames delimited by Frame Pre ids), one port holding Ice Climbers, one frame; unknown events (1-byte and 8-byte payload) after the leader's Frame Pre and after the follower's Frame Pre
+// @assume state built by ParseState::verif_from_parts; the port's column set is a typed stack object; the final frame_close() of read() is called through a hook
+// @stub alloc::fmt::format = returns an empty String
+// @stub std::hash::RandomState::new = fixed keys
+// @cbmc --max-field-sensitivity-array-size 512
+#[kani::proof]
+#[kani::unwind(8)]
+#[kani::stub(alloc::fmt::format, format_stub)]
+#[kani::stub(std::hash::RandomState::new, random_state_stub)]
+fn c08_unknown_inside_open_frame_v0_1() {
+	let v = Version(0, 1, 0);
+	let mut store = new_port(v, Port::P2, true);
+	let mut state = one_port_state(v, &mut store, Port::P2);
+	const PRE: usize = 1 + 6 + 52;
+	const POST: usize = 1 + 6 + 27;
+	let a = -123i32;
+	let mut pre_l: [u8; PRE] = kani::any();
+	put_port_header(&mut pre_l, 0x37, a, 1, false);
+	step(&mut state, &pre_l, 0x37);
+	let mut u1: [u8; 2] = kani::any();
+	u1[0] = UNKNOWN_A;
+	step(&mut state, &u1, UNKNOWN_A);
+	let mut pre_f: [u8; PRE] = kani::any();
+	put_port_header(&mut pre_f, 0x37, a, 1, true);
+	step(&mut state, &pre_f, 0x37);
+	let mut u2: [u8; 9] = kani::any();
+	u2[0] = UNKNOWN_B;
+	step(&mut state, &u2, UNKNOWN_B);
+	let mut post_l: [u8; POST] = kani::any();
+	put_port_header(&mut post_l, 0x38, a, 1, false);
+	step(&mut state, &post_l, 0x38);
+	let mut post_f: [u8; POST] = kani::any();
+	put_port_header(&mut post_f, 0x38, a, 1, true);
+	step(&mut state, &post_f, 0x38);
+	assert!(state.bytes_read() == 2 * PRE + 2 * POST + 2 + 9);
+	state.verif_frame_close();
+
+	let f = state.frames();
+	assert!(f.id.len() == 1 && f.id.values()[0] == a);
+	let p = &f.ports[0];
+	assert!(p.leader.pre.len() == 1 && p.leader.post.len() == 1);
+	assert!(bit(&p.leader.validity, 0, 1));
+	assert!(p.leader.pre.random_seed.values()[0] == u32::from_be_bytes([pre_l[7], pre_l[8], pre_l[9], pre_l[10]]));
+	match p.follower.as_ref() {
+		Some(fo) => {
+			// one row, present, holding the follower's own payloads
+			assert!(fo.pre.len() == 1 && fo.post.len() == 1);
+			assert!(bit(&fo.validity, 0, 1));
+			assert!(fo.pre.random_seed.values()[0] == u32::from_be_bytes([pre_f[7], pre_f[8], pre_f[9], pre_f[10]]));
+			assert!(fo.post.character.values()[0] == post_f[7]);
+		}
+		None => assert!(false),
+	}
+	kani::cover!(true, "reached");
+}
+
 // @verif property=C04,C12:thorough tier=quick mem=16 timeout=3000
 // @encodes peppi::io::slippi::de::parse_event (Frame Start, Frame Pre, Frame Post, Frame End arms), ParseState::frame_close null padding, mutable::Data::push_null
 // @symbolic 2600 all payload bytes of 7 events (frame ids concrete: symbolic ids make every column length symbolic and the null-padding loops do not finish, > 45 min; arbitrary ids incl. rollbacks are decided on the port-free skeleton, gen_c04)
